@@ -193,6 +193,25 @@ class Check(FormulaCheck):
             else:
                 axis = ':on-an-axis' if (px == 0 or py == 0) else ''
                 self.expect('C16/ATAN2:angle-of-point' + axis, close_mp(g, m.atan2(mpf(py), mpf(px))), x=px, y=py, got=g, expected=float(m.atan2(mpf(py), mpf(px))))
+            # the same point with its coordinates spelled as the other accepted kinds of number (numeric text, logicals, float zero)
+            def spell(v):
+                alts = [v, float(v)]
+                if v == int(v):
+                    alts += [str(int(v)), '%s.0' % int(v), ' %d ' % int(v)]
+                    if v in (0, 1):
+                        alts.append(bool(v))
+                    if v == 0:
+                        alts += ['0.00', '0e0']
+                        if px == 0 and py == 0:
+                            alts += ['-0', -0.0]      # a negative zero is a zero (off the origin it would only pick the other name, -pi, of the angle pi)
+                else:
+                    alts.append(repr(v))
+                return rnd.choice(alts)
+            sx, sy = spell(px), spell(py)
+            g2 = self.ev('ATAN2(v_x,v_y)', v_x=sx, v_y=sy)
+            rec.nt(('ATAN2-spelled', repr(sx), repr(sy)))
+            same = (g2 == g) or (finite(g) and finite(g2) and abs(g - g2) <= 1e-12)
+            self.expect('C16/ATAN2:depends-on-how-the-numbers-are-spelled' + (':origin' if (px == 0 and py == 0) else ''), same, x=sx, y=sy, got=g2, with_plain_numbers=g)
             # ACOT
             x = self.arg(rnd, 'any')
             g = self.ev('ACOT(v_x)', v_x=x)
